@@ -396,7 +396,14 @@ func RunWith[C any](t *testing.T, rec *Recorder, gen func(*rapid.T) C, prop func
 		rec.Flush(completed)
 	}()
 
+	// A hang costs a full watchdog period per attempt and leaves a spinning
+	// goroutine behind, so such a failure is reported as found, not shrunk:
+	// every later attempt returns at once and the first failing case is kept.
+	stopShrinking := false
 	rapid.Check(t, func(rt *rapid.T) {
+		if stopShrinking {
+			return
+		}
 		c := gen(rt)
 		js, jerr := json.Marshal(c)
 		if jerr != nil {
@@ -419,6 +426,9 @@ func RunWith[C any](t *testing.T, rec *Recorder, gen func(*rapid.T) C, prop func
 			rec.failed = true
 			rec.mu.Unlock()
 			lastFail = &violationOut{Sig: v.Sig, Msg: v.Msg, Case: js}
+			if strings.HasSuffix(v.Sig, "/hang") {
+				stopShrinking = true
+			}
 			rt.Fatalf("%s violated: %v", id, err)
 		}
 		rec.record(js, o)
